@@ -7,9 +7,11 @@ cd $W && git reset -q --hard && git checkout -q --detach $(git -C /repo rev-pars
 export CARGO_NET_OFFLINE=true
 {
 echo "verified against /repo HEAD $(git -C /repo rev-parse --short HEAD) in scratch worktree $W"
+cargo build --offline -q > /var/tmp/rebase/build_unpatched.log 2>&1
 bash $D/demo/run.sh $W > /var/tmp/rebase/demo_unpatched.log 2>&1; a=$?
 echo "demo on unpatched tree: exit $a (expected 0)"
 git apply $D/patch.diff || echo "PATCH DOES NOT APPLY"
+cargo build --offline -q > /var/tmp/rebase/build_patched.log 2>&1
 bash $D/demo/run.sh $W > /var/tmp/rebase/demo_patched.log 2>&1; b=$?
 echo "demo on patched tree: exit $b (expected non-zero)"
 if [ "${2:-}" != "nosuite" ]; then
